@@ -59,7 +59,7 @@ class DefaultCaseBlockCompileHandler(
         if self.is_message_case:
             raise SsbCompilerError(_("Invalid message switch case call."))
         self.compiler_ctx.add_switch_case(self)
-        retval = self._process_block(False)
+        retval = self._process_block(False, can_be_entered_from_above=True)
         self.compiler_ctx.remove_switch_case()
         return retval
 
